@@ -7,7 +7,8 @@ open WM.Proto WM.Proto.SExp WM.Rank WM.Collect
 
 * `c05 top (limit replace usequality useFinal) (finaltable) (segs) (sched)` — `collectTop` with its trace;
   * `finaltable` = `((doc score) …)`: the `final()` hook as a table (identity elsewhere);
-  * `segs` = `((off supports ((doc score newBlock) …)) …)`; `sched` = `(((mask…) supports skip) …)`;
+  * `segs` = `((off supports ((doc score newBlock) …)) …)`; `sched` = `(((wish…) supports skip [(wish…)]) …)`,
+    a wish = `0` keep | `1` drop | `(l score)` lower (the optional second list is `skipMask`);
   * reply `ok ((doc score) …) total replaced skipped (thresholds, oldest first) may_have_dropped count` or `err <name>`.
 * `c05 unl (replace useFinal reverse) (finaltable) (segs) (sched)` — `collectUnlimited`.
 * `c05 stack (limit replace usequality useFinal) (finaltable) allow restrict collapse (segs) (sched)` —
@@ -18,7 +19,7 @@ open WM.Proto WM.Proto.SExp WM.Rank WM.Collect
 
 def posting? (e : SExp) : Option Posting := do
   match e with
-  | .list [d, s, b] => some ⟨← d.nat?, ← s.rat?, ← b.bool?⟩
+  | .list [d, s, b] => some (Posting.mk' (← d.nat?) (← s.rat?) (← b.bool?))
   | _ => none
 
 def seg? (e : SExp) : Option Seg := do
@@ -26,9 +27,17 @@ def seg? (e : SExp) : Option Seg := do
   | .list [o, s, ps] => some ⟨← o.nat?, ← s.bool?, ← listOf? posting? ps⟩
   | _ => none
 
+/-- a wish: `0` keep, `1` drop, `(l score)` lower the score to `score` -/
+def wish? (e : SExp) : Option Wish := do
+  match e with
+  | .list [.atom "l", s] => some (.lower (← s.rat?))
+  | _ => if ← e.bool? then some .drop else some .keep
+
 def step? (e : SExp) : Option Step := do
   match e with
-  | .list [m, s, k] => some ⟨← listOf? bool? m, ← s.bool?, ← k.nat?⟩
+  | .list [m, s, k] => some { mask := ← listOf? wish? m, supports := ← s.bool?, skip := ← k.nat? }
+  | .list [m, s, k, sm] =>
+    some { mask := ← listOf? wish? m, supports := ← s.bool?, skip := ← k.nat?, skipMask := ← listOf? wish? sm }
   | _ => none
 
 def hit? (e : SExp) : Option Hit := do
